@@ -1,14 +1,9 @@
-(* C08, heap statements WITHOUT the one-block restriction: the residual guard `stmt_k` of the RISC-V heap simulation.
-   Objects and closure environments of ANY number of fields.  What is left of `stmt_h` (Proof/RVHFrag.v):
-     - no print statement (the RISC-V back end panics on it: `rv_compile` = Err, so this is implied by a successful
-       compilation, `k_frag_of_compile`... see Proof/RVKSimTop.v);
-     - Create carries its annotation (`ann_check` demands that anyway);
-     - every Switch has at least one clause.  An EMPTY Switch (a match on a data type without constructors) emits a
-       label only; the RISC-V routine ends with the label `cleanup` (no epilogue instruction, unlike the RET of the
-       other back ends), so for a single-clause closure whose body is such a Switch the indirect jump of Invoke has no
-       instruction to land on (`fwd_ok` needs one).  Such code is dead (no value of an empty type exists);
-   the fact that the code of every statement of the fragment contains an instruction of non-zero size
-   (so an indirect jump to the address of its first instruction lands inside it, `RVHLayout.fwd_ok`). *)
+(* C08, heap statements, all statement forms: what is left of the fragment predicate `stmt_h` (Proof/RVHFrag.v) once
+   objects and closure environments may have ANY number of fields and the landing of an Invoke is established when the
+   closure is INVOKED (Proof/RVKLayout.v, RVKClo.v) instead of when it is created:
+     stmt_k    no print statement (the RISC-V back end panics on it: `rv_compile` = Err, so this follows from a successful
+               compilation) and every Create carries its annotation (`ann_check` demands that anyway).
+   `k_frag_intro`: both follow from `prog_has_print p = false` and `ann_check_prog p = true`: NO guard on the program is left. *)
 From Coq Require Import List ZArith NArith String Bool Lia FMapPositive.
 From SCC Require Import Base.Sexp Lang.AxSyn Sem.AxSem Model.ParMoves Model.Backend Model.RV Sem.RVSem Sem.RVWf
      Model.Linearize Model.LinCheck Generated.Constants Proof.LinBasics
@@ -27,7 +22,7 @@ Fixpoint stmt_k (s : stmt) : bool :=
   | Substitute _ next => stmt_k next
   | Call _ _ | Exit _ | Invoke _ _ _ _ => true
   | Let _ _ _ args next => stmt_k next
-  | Switch _ _ cls => negb (XC.is_nil cls) && clauses cls
+  | Switch _ _ cls => clauses cls
   | Create _ _ (Some env) cls next => clauses cls && stmt_k next
   | Create _ _ None _ _ => false
   | Literal _ _ next | Op _ _ _ _ next => stmt_k next
@@ -38,9 +33,9 @@ Definition clauses_k (cls : list clause) : bool :=
   forallb (fun c => stmt_k (cl_body c)) cls.
 Definition k_frag (p : prog) : bool := forallb (fun d => stmt_k (dbody d)) (pdefs p).
 
-Lemma stmt_k_switch v t cls : stmt_k (Switch v t cls) = negb (XC.is_nil cls) && clauses_k cls.
+Lemma stmt_k_switch v t cls : stmt_k (Switch v t cls) = clauses_k cls.
 Proof.
-  cbn [stmt_k]. f_equal. unfold clauses_k. induction cls as [|[[x cc] b] r IH]; [reflexivity|].
+  cbn [stmt_k]. unfold clauses_k. induction cls as [|[[x cc] b] r IH]; [reflexivity|].
   cbn [forallb cl_ctx cl_body fst snd]. now rewrite IH.
 Qed.
 Lemma stmt_k_create v t env cls next :
@@ -55,7 +50,7 @@ Proof.
   - apply IHs. exact FR.
   - reflexivity.
   - cbn [stmt_k] in FR. apply IHs. exact FR.
-  - rewrite stmt_k_switch in FR. apply andb_true_iff in FR as [_ FR]. unfold clauses_k in FR.
+  - rewrite stmt_k_switch in FR. unfold clauses_k in FR.
     induction cls as [|[[x cc] b] r IHr]; [reflexivity|]. inversion H as [|? ? P0 Pr]; subst. cbn [forallb cl_ctx cl_body fst snd] in FR.
     apply andb_true_iff in FR as [H1 H2]. cbn [cl_body snd] in P0. rewrite (P0 H1). cbn [orb]. exact (IHr Pr H2).
   - destruct env as [env|]; [|discriminate]. rewrite stmt_k_create in FR. apply andb_true_iff in FR as [HC HN].
@@ -70,95 +65,42 @@ Proof.
   - reflexivity.
 Qed.
 
-Lemma has_nz_cons c r : isize c <> 0 -> has_nz (c :: r).
-Proof. intros H. exists O, c. auto. Qed.
-
-(* every statement of the fragment emits an instruction of non-zero size *)
-Lemma cs_has_nz types : forall s c lc code lc',
-  stmt_k s = true -> rcs types s c lc = Ok (code, lc') -> has_nz code.
+(* no print (implied by a successful `rv_compile`), annotated closures (implied by `ann_check`) *)
+Lemma stmt_k_intro : forall s c, stmt_has_print s = false -> ann_check c s = true -> stmt_k s = true.
 Proof.
-  intros s. induction s using stmt_ind2; intros c lc code lc' FR CS.
-  - cbn [stmt_k] in FR. destruct (cs_substitute _ _ _ _ _ _ _ _ CS) as (c1 & lc1 & c2 & c3 & _ & _ & NX & ->).
-    cbn [b_mark rv_backend app]. apply has_nz_app_r, has_nz_app_r. eauto.
-  - destruct (cs_call _ _ _ _ _ _ _ _ CS) as (-> & _). apply has_nz_cons. cbn; lia.
-  - destruct (cs_let _ _ _ _ _ _ _ _ _ _ CS) as (d & k & rest & arguments & c1 & lc1 & tmpv & c3 & _ & _ & _ & _ & _ & _ & ->).
-    apply has_nz_app_r. apply has_nz_cons. apply isize_LI.
-  - rewrite stmt_k_switch in FR. apply andb_true_iff in FR as [NE CH].
-    destruct (cs_switch _ _ _ _ _ _ _ _ CS) as (c1 & c3 & _ & GC & ->).
-    apply has_nz_app_r, has_nz_app_r.
-    destruct cls as [|[[x cx] body] r]; [discriminate|]. cbn [gclauses] in GC.
-    destruct (r_load cx (removelast c) (lc + 1)%N) as [[cl lc1]|]; cbn [rbind] in GC; [|discriminate].
-    destruct (rcs types body (removelast c ++ cx) lc1) as [[cb lc2]|] eqn:BD; cbn [rbind] in GC; [|discriminate].
-    destruct (gclauses _ _ _ _ r lc2) as [[cr lc3]|]; cbn [rbind] in GC; [|discriminate]. inversion GC; subst.
-    inversion H as [|? ? P0 _]; subst. cbn [cl_body snd] in P0.
-    unfold clauses_k in CH. cbn [forallb cl_ctx cl_body fst snd] in CH. apply andb_true_iff in CH as [CH _].
-    apply (has_nz_app_r [_]), has_nz_app_r, has_nz_app_l. eapply P0; eauto.
-  - destruct env as [env|]; [|discriminate].
-    destruct (cs_create _ _ _ _ _ _ _ _ _ _ _ CS) as (rest & cenv & c1 & lc1 & tmpv & c3 & lc3 & c5 & _ & _ & _ & _ & _ & ->).
-    cbn [b_mark b_load_label rv_backend app r_load_label]. apply has_nz_app_r. apply has_nz_cons. cbn; lia.
-  - destruct (cs_invoke _ _ _ _ _ _ _ _ _ _ CS) as (tmpv & d & _ & _ & _ & CD).
-    destruct (Nat.leb (List.length (txtors d)) 1); [subst code|destruct CD as (k & _ & ->)]; apply has_nz_cons; cbn; lia.
-  - destruct (cs_literal _ _ _ _ _ _ _ _ _ CS) as (tv & c2 & _ & _ & ->). apply has_nz_cons. apply isize_LI.
-  - destruct (cs_op _ _ _ _ _ _ _ _ _ _ _ CS) as (tv & ta & tb & c2 & _ & _ & _ & _ & ->). destruct o; apply has_nz_cons; cbn; lia.
-  - cbn [stmt_k] in FR. discriminate.
-  - destruct (cs_ifc _ _ _ _ _ _ _ _ _ _ _ CS) as (ta & c1 & c2 & lc2 & c3 & _ & C1 & _ & _ & ->).
-    destruct b as [b|]; [destruct C1 as (tb & _ & ->)|subst c1]; destruct so; apply has_nz_cons; cbn; lia.
-  - destruct (cs_exit _ _ _ _ _ _ _ CS) as (tv & _ & -> & _). apply has_nz_cons. cbn; lia.
-Qed.
-
-(* ---------- the guard of the program-level theorem: every Switch has a clause ---------- *)
-Fixpoint stmt_sw (s : stmt) : bool :=
-  let clauses := fix go (cls : list (ident * ctx * stmt)) : bool :=
-    match cls with
-    | [] => true
-    | (_, _, b) :: r => stmt_sw b && go r
-    end in
-  match s with
-  | Substitute _ next | Let _ _ _ _ next | Literal _ _ next | Op _ _ _ _ next | PrintI64 _ _ next => stmt_sw next
-  | Call _ _ | Exit _ | Invoke _ _ _ _ => true
-  | Switch _ _ cls => negb (XC.is_nil cls) && clauses cls
-  | Create _ _ _ cls next => clauses cls && stmt_sw next
-  | IfC _ _ _ t e => stmt_sw t && stmt_sw e
-  end.
-Definition switch_guard (p : prog) : bool := forallb (fun d => stmt_sw (dbody d)) (pdefs p).
-
-(* no print (implied by a successful `rv_compile`), annotated closures (implied by `ann_check`), no empty Switch *)
-Lemma stmt_k_intro : forall s c, stmt_sw s = true -> stmt_has_print s = false -> ann_check c s = true -> stmt_k s = true.
-Proof.
-  intros s. induction s using stmt_ind2; intros c SW NP AN.
-  - cbn [stmt_sw stmt_has_print ann_check stmt_k] in *. eapply IHs; eauto.
+  intros s. induction s using stmt_ind2; intros c NP AN.
+  - cbn [stmt_has_print ann_check stmt_k] in *. eapply IHs; eauto.
   - reflexivity.
-  - cbn [stmt_sw stmt_has_print ann_check stmt_k] in *.
+  - cbn [stmt_has_print ann_check stmt_k] in *.
     destruct (split_lastn (List.length args) c) as [[c0 tl]|]; [|discriminate]. eapply IHs; eauto.
-  - rewrite stmt_k_switch. cbn [stmt_sw] in SW. apply andb_true_iff in SW as [NE SW]. rewrite NE. cbn [andb].
+  - rewrite stmt_k_switch.
     rewrite ann_check_switch in AN. destruct (split_lastn 1 c) as [[c0 tl]|]; [|discriminate].
-    cbn [stmt_has_print] in NP. unfold clauses_k, ann_clauses_sw in *. clear NE.
+    cbn [stmt_has_print] in NP. unfold clauses_k, ann_clauses_sw in *.
     induction cls as [|[[x cc] b] r IHr]; [reflexivity|]. inversion H as [|? ? P0 Pr]; subst.
-    cbn [forallb cl_ctx cl_body fst snd] in *. apply andb_true_iff in SW as [S1 S2]. apply andb_true_iff in AN as [A1 A2].
-    apply orb_false_iff in NP as [N1 N2]. cbn [cl_body snd] in P0. rewrite (P0 _ S1 N1 A1). cbn [andb]. exact (IHr Pr S2 N2 A2).
+    cbn [forallb cl_ctx cl_body fst snd] in *. apply andb_true_iff in AN as [A1 A2].
+    apply orb_false_iff in NP as [N1 N2]. cbn [cl_body snd] in P0. rewrite (P0 _ N1 A1). cbn [andb]. exact (IHr Pr N2 A2).
   - destruct env as [env|]; [|cbn [ann_check] in AN; discriminate].
-    rewrite stmt_k_create. cbn [stmt_sw] in SW. apply andb_true_iff in SW as [SW SWn].
+    rewrite stmt_k_create.
     rewrite ann_check_create in AN. destruct (split_lastn (List.length env) c) as [[c0 tl]|]; [|discriminate].
     apply andb_true_iff in AN as [AN ANn]. apply andb_true_iff in AN as [_ AN].
     cbn [stmt_has_print] in NP. apply orb_false_iff in NP as [NP NPn].
-    rewrite (IHs _ SWn NPn ANn), andb_true_r. unfold clauses_k, ann_clauses_cr in *. clear IHs SWn NPn ANn.
+    rewrite (IHs _ NPn ANn), andb_true_r. unfold clauses_k, ann_clauses_cr in *. clear IHs NPn ANn.
     induction cls as [|[[x cc] b] r IHr]; [reflexivity|]. inversion H as [|? ? P0 Pr]; subst.
-    cbn [forallb cl_ctx cl_body fst snd] in *. apply andb_true_iff in SW as [S1 S2]. apply andb_true_iff in AN as [A1 A2].
-    apply orb_false_iff in NP as [N1 N2]. cbn [cl_body snd] in P0. rewrite (P0 _ S1 N1 A1). cbn [andb]. exact (IHr Pr S2 N2 A2).
+    cbn [forallb cl_ctx cl_body fst snd] in *. apply andb_true_iff in AN as [A1 A2].
+    apply orb_false_iff in NP as [N1 N2]. cbn [cl_body snd] in P0. rewrite (P0 _ N1 A1). cbn [andb]. exact (IHr Pr N2 A2).
   - reflexivity.
-  - cbn [stmt_sw stmt_has_print ann_check stmt_k] in *. eapply IHs; eauto.
-  - cbn [stmt_sw stmt_has_print ann_check stmt_k] in *. eapply IHs; eauto.
+  - cbn [stmt_has_print ann_check stmt_k] in *. eapply IHs; eauto.
+  - cbn [stmt_has_print ann_check stmt_k] in *. eapply IHs; eauto.
   - cbn [stmt_has_print] in NP. discriminate.
-  - cbn [stmt_sw stmt_has_print ann_check stmt_k] in *. apply andb_true_iff in SW as [S1 S2]. apply andb_true_iff in AN as [A1 A2].
-    apply orb_false_iff in NP as [N1 N2]. rewrite (IHs1 _ S1 N1 A1), (IHs2 _ S2 N2 A2). reflexivity.
+  - cbn [stmt_has_print ann_check stmt_k] in *. apply andb_true_iff in AN as [A1 A2].
+    apply orb_false_iff in NP as [N1 N2]. rewrite (IHs1 _ N1 A1), (IHs2 _ N2 A2). reflexivity.
   - reflexivity.
 Qed.
 
-Lemma k_frag_intro p :
-  switch_guard p = true -> prog_has_print p = false -> ann_check_prog p = true -> k_frag p = true.
+Lemma k_frag_intro p : prog_has_print p = false -> ann_check_prog p = true -> k_frag p = true.
 Proof.
-  unfold switch_guard, prog_has_print, ann_check_prog, k_frag. rewrite !forallb_forall. intros SW NP AN d Hd.
-  apply (stmt_k_intro (dbody d) (dctx d)); [exact (SW d Hd)| |exact (AN d Hd)].
+  unfold prog_has_print, ann_check_prog, k_frag. rewrite !forallb_forall. intros NP AN d Hd.
+  apply (stmt_k_intro (dbody d) (dctx d)); [|exact (AN d Hd)].
   destruct (stmt_has_print (dbody d)) eqn:E; [|reflexivity].
   assert (X : existsb (fun d0 => stmt_has_print (dbody d0)) (pdefs p) = true) by (apply existsb_exists; exists d; auto). congruence.
 Qed.
